@@ -64,20 +64,7 @@ def gen_case(ch: Chooser, excl=()):
 
 def c08_model(ch, excl):
     """The project model of the C08 generator."""
-    holder = {}
-    orig = render.render_project
-
-    def capture(proj, *a, **k):
-        holder["proj"] = proj
-        return {}, {}
-    render.render_project = capture
-    try:
-        c08.render.render_project = capture
-        c08.gen_case(ch, excl)
-    finally:
-        render.render_project = orig
-        c08.render.render_project = orig
-    return holder["proj"]
+    return c08.gen_model(ch, excl)[0]
 
 
 def strategy(tier, excl):
